@@ -1319,7 +1319,7 @@ impl Gen {
                     5 => {
                         let key: &[u8] = *self.rng.pick(&[&b".varnames"[..], b".orderedvarnames", b".suppvarnames", b".rootnames"]);
                         let n = if key == b".suppvarnames" { nsupp } else { nvars };
-                        let n = if self.rng.chance(3, 4) { n } else { self.rng.below(6) as usize };
+                        let n = if self.rng.chance(3, 4) { n.min(64) } else { self.rng.below(6) as usize };
                         let toks: Vec<Vec<u8>> = (0..n).map(|i| format!("n{i}").into_bytes()).collect();
                         joinl(key, &toks, b" ")
                     }
